@@ -30,7 +30,7 @@ Val(b, i, j) == LET k == (i - 1) * 3 + j + 4 * (b[1] * 2 + b[2]) IN IF k % 2 = 0
 \* leaf pattern palette for an h x w block
 Pal(h, w) ==
   LET Pos == (1..h) \X (1..w) IN
-  {{}, Pos, {p \in Pos : p[1] = p[2]}, {p \in Pos : p[1] = h /\ p[2] = 1}, {p \in Pos : p[1] <= p[2]} \ {<<1, 1>>}, {p \in Pos : p[1] = 1}}
+  <<{}, Pos, {p \in Pos : p[1] = p[2]}, {p \in Pos : p[1] = h /\ p[2] = 1}, {p \in Pos : p[1] <= p[2]} \ {<<1, 1>>}, {p \in Pos : p[1] = 1}>>
 
 RowOff(bi) == LET S[k \in 0..Len(Heights)] == IF k = 0 THEN 0 ELSE S[k-1] + Heights[k] IN S[bi - 1]
 ColOff(bj) == LET S[k \in 0..Len(Widths)] == IF k = 0 THEN 0 ELSE S[k-1] + Widths[k] IN S[bj - 1]
@@ -51,12 +51,11 @@ Alphas == {<<0, 1>>, <<1, 1>>, <<-1, 1>>, <<2, 1>>, <<-1, 2>>}
 
 Init ==
   /\ ph = "init"
-  /\ \E pats \in [Cells -> SUBSET ((1..2) \X (1..3))] :
-       /\ \A b \in Cells : pats[b] \in Pal(Heights[b[1]], Widths[b[2]])
-       /\ M = [leaf |-> [b \in Cells |->
+  /\ \E pick \in [Cells -> 1..6] :
+       M = [leaf |-> [b \in Cells |->
                   LET h == Heights[b[1]]  w == Widths[b[2]]
                       D == [i \in 1..h |-> [j \in 1..w |-> Val(b, i, j)]]
-                  IN [bi |-> b[1], bj |-> b[2], m |-> h, n |-> w, rep |-> CSROf(h, w, D, pats[b])]]]
+                  IN [bi |-> b[1], bj |-> b[2], m |-> h, n |-> w, rep |-> CSROf(h, w, D, Pal(h, w)[pick[b]])]]]
   /\ x = <<>> /\ y = <<>> /\ r = <<>>
   /\ call = [op |-> "none", an |-> 1, ad |-> 1, alias |-> FALSE]
 
